@@ -66,16 +66,17 @@ type Proc struct {
 
 // OS is the simulated operating system.
 type OS struct {
-	mu      sync.Mutex
-	sim     *zsim.Sim
-	nextPid int
-	Procs   []*Proc
-	Behave  func(p *Proc) Script
-	sigs    map[chan<- os.Signal][]os.Signal
-	Log     func(format string, a ...any)
-	Became  *Proc // set when fzf replaced itself (become)
-	Stops   int   // SIGTSTP to self
-	SelfPid int
+	mu       sync.Mutex
+	sim      *zsim.Sim
+	nextPid  int
+	Procs    []*Proc
+	Behave   func(p *Proc) Script
+	sigs     map[chan<- os.Signal][]os.Signal
+	Log      func(format string, a ...any)
+	Became   *Proc // set when fzf replaced itself (become)
+	Stops    int   // SIGTSTP to self
+	SelfPid  int
+	PipeFull int // times a writer found its pipe full and blocked
 }
 
 // Cur is the OS of the current run (nil: real OS).
@@ -269,13 +270,19 @@ func (p *Proc) run() {
 		if !alive {
 			break
 		}
-		p.os.mu.Lock()
-		p.Emitted.WriteString(c.Data)
-		p.os.mu.Unlock()
+		took := func(b []byte) {
+			p.os.mu.Lock()
+			p.Emitted.Write(b)
+			p.os.mu.Unlock()
+		}
 		if p.pipe != nil {
-			p.pipe.write([]byte(c.Data))
-		} else if p.stdout != nil {
+			if !p.pipe.write([]byte(c.Data), p.killCh, took) {
+				alive = false
+				break
+			}
+		} else {
 			// foreground command writing to the terminal: discarded
+			took([]byte(c.Data))
 		}
 	}
 	if alive && p.script.Endless {
@@ -366,6 +373,11 @@ func (o *OS) AliveUnkilled() []*Proc {
 	var out []*Proc
 	for _, p := range o.Procs {
 		if p.Alive && !p.Killed {
+			if p.pipe != nil && p.pipe.blocked > 0 {
+				// blocked in write(2) on a pipe only fzf reads: when fzf is gone (exit, exec: the descriptor is
+				// close-on-exec) the write fails with SIGPIPE and the process ends (and the shell waiting for it) - nothing stays behind
+				continue
+			}
 			out = append(out, p)
 		}
 	}
@@ -389,10 +401,17 @@ type pipe struct {
 	wclosed bool
 	rclosed bool
 	wake    chan struct{}
+	room    chan struct{}
+	blocked int // writers waiting for room (under os.mu)
 	p       *Proc
 }
 
-func newPipe(p *Proc) *pipe { return &pipe{wake: make(chan struct{}, 1), p: p, writers: 1} }
+// PipeCap is what a pipe holds before a writer blocks (Linux: 64 KiB).
+const PipeCap = 65536
+
+func newPipe(p *Proc) *pipe {
+	return &pipe{wake: make(chan struct{}, 1), room: make(chan struct{}, 1), p: p, writers: 1}
+}
 
 func (pp *pipe) addWriter() {
 	pp.mu.Lock()
@@ -407,13 +426,55 @@ func (pp *pipe) signal() {
 	}
 }
 
-func (pp *pipe) write(b []byte) {
-	pp.mu.Lock()
-	if !pp.rclosed {
-		pp.buf = append(pp.buf, b...)
+func (pp *pipe) hasRoom() {
+	select {
+	case pp.room <- struct{}{}:
+	default:
 	}
-	pp.mu.Unlock()
-	pp.signal()
+}
+
+// write blocks while the pipe is full, like write(2) on a pipe nobody drains; a kill ends the wait.
+// accepted is called with each piece the pipe took.
+func (pp *pipe) write(b []byte, kill <-chan struct{}, accepted func([]byte)) bool {
+	for len(b) > 0 {
+		pp.mu.Lock()
+		if pp.rclosed {
+			// nobody will ever read this: SIGPIPE, whose default action ends the writer
+			pp.mu.Unlock()
+			pp.p.os.logf("proc %d SIGPIPE", pp.p.Pid)
+			return false
+		}
+		if free := PipeCap - len(pp.buf); free > 0 {
+			n := len(b)
+			if n > free {
+				n = free
+			}
+			pp.buf = append(pp.buf, b[:n]...)
+			pp.mu.Unlock()
+			accepted(b[:n])
+			b = b[n:]
+			pp.signal()
+			continue
+		}
+		pp.mu.Unlock()
+		pp.p.os.mu.Lock()
+		pp.p.os.PipeFull++
+		pp.blocked++
+		pp.p.os.mu.Unlock()
+		select {
+		case <-pp.room:
+		case <-kill:
+			pp.p.os.mu.Lock()
+			pp.blocked--
+			pp.p.os.mu.Unlock()
+			return false
+		}
+		pp.p.os.mu.Lock()
+		pp.blocked--
+		pp.p.os.mu.Unlock()
+		zsim.Yield("pipe.write.wake")
+	}
+	return true
 }
 
 func (pp *pipe) closeWrite() {
@@ -449,6 +510,7 @@ func (pp *pipe) Read(b []byte) (int, error) {
 			if more {
 				pp.signal()
 			}
+			pp.hasRoom()
 			return n, nil
 		}
 		if pp.wclosed {
@@ -466,6 +528,7 @@ func (pp *pipe) Close() error {
 	pp.rclosed = true
 	pp.mu.Unlock()
 	pp.signal()
+	pp.hasRoom()
 	return nil
 }
 
